@@ -955,7 +955,48 @@ def r816(ctx):
         ctx.ok(rid, w, "scheduler(): no commit before or inside the start-up loop")
 
 
+def r817(ctx):
+    """The re-sort that precedes the commit ends only when *no* slot holds a path with zero weight:
+    a swap can put the displaced path into a slot where *it* has zero weight, so the condition of the
+    loop is recomputed from the weight matrix after every swap (a whole re-scan, or a test over
+    self.state in the loop condition itself). Clearing only the flag of the slot just served ends the
+    loop with the displaced path misplaced; the restart file then lists a path in an ensemble where its
+    weight is zero and a restart from it dies in add_traj."""
+    rid = "R-8.17"
+    f = ctx.tree.func(REPEX, "REPEX_state.sort_trajstate")
+    fl = flow_of(f)
+    cfg = fl.cfg
+    loops = [w for w in walk_local(f) if isinstance(w, ast.While) and any(isinstance(c, ast.Call) and is_self_attr(c.func, "swap") for st in w.body for c in ast.walk(st))]
+    if not loops:
+        raise AnalysisError("R-8.17: the swapping loop of sort_trajstate was not found")
+    for w in loops:
+        swaps = [c for st in w.body for c in ast.walk(st) if isinstance(c, ast.Call) and is_self_attr(c.func, "swap")]
+        cond_names = {x.id for x in ast.walk(w.test) if isinstance(x, ast.Name)}
+        reads_state = any(isinstance(x, ast.Attribute) and x.attr == "state" for x in ast.walk(w.test))
+        if reads_state:
+            ctx.ok(rid, w, "the loop condition itself reads the weight matrix")
+            continue
+        # flag variables of the condition: each swap must be followed (same iteration) by a whole
+        # re-assignment of the flag variable from self.state
+        head = cfg.node_of(w.test)
+        okay = True
+        for sw in swaps:
+            sn = cfg.node_of(sw)
+            redefs = [st for st in walk_local(f) if isinstance(st, ast.Assign) and any(isinstance(t, ast.Name) and t.id in cond_names for t in st.targets)
+                      and any(isinstance(x, ast.Attribute) and x.attr == "state" for x in ast.walk(st.value)) and any(st is y or st in list(ast.walk(y)) for y in w.body)]
+            rn = [cfg.node_of(st) for st in redefs]
+            if not redefs or cfg.reaches(sn, head, avoid=rn):
+                okay = False
+                partial = [st for st in walk_local(f) if isinstance(st, ast.Assign) and any(isinstance(t, ast.Subscript) and isinstance(t.value, ast.Name) and t.value.id in cond_names for t in st.targets)]
+                ctx.bad(rid, sw, f"sort_trajstate goes back to its loop condition after `{short(sw, 30)}` without recomputing the misplaced-path flags from the weight matrix" + (f" (only `{short(partial[0], 40)}`)" if partial else "") + ": the swap may have moved the displaced path into a slot where its own weight is zero, the loop ends with it there, treat_output commits a restart.toml that lists a path in an ensemble where its weight is zero - a restart from that file dies in add_traj (assert valid[ens] != 0)",
+                        construct="sort_trajstate: flags not recomputed after swap")
+        if okay:
+            ctx.ok(rid, w, "after every swap the flags of the loop condition are recomputed from self.state before the condition is evaluated again")
+
+
 def run(ctx):
+    ctx.rule("R-8.17", "the committed slot order has no path in a slot where its weight is zero: the re-sort recomputes its loop condition from the weight matrix after every swap", floor=1)
+    ctx.attempt(r817, ctx)
     ctx.rule("R-8.16", "restart.toml is not written while saved in-flight jobs wait to be re-issued: no committing call in the methods that run while the workers are started, nor in scheduler() up to the end of the start-up loop", floor=2)
     ctx.attempt(r816, ctx)
     ctx.rule("R-8.7", "one ensemble-index unit per store: self.locked entries offset-removed, restart.toml's locked and lock()/swap() indices in state-matrix rows", floor=4)
@@ -997,6 +1038,8 @@ def run(ctx):
 
 
 VARIANTS = [
+    B("c08-resort-clears-only-the-served-flag", REPEX, "            self.swap(ens_idx, trj_idx)\n            needstomove = [\n                self.state[idx][:-1][idx] == 0 for idx in range(self.n - 1)\n            ]\n", "            self.swap(ens_idx, trj_idx)\n            needstomove[ens_idx] = False\n", "R-8.17", control=True, why="seeded C08_p"),
+    K("c08-keep-resort-flags-from-a-helper-expression", REPEX, "            self.swap(ens_idx, trj_idx)\n            needstomove = [\n                self.state[idx][:-1][idx] == 0 for idx in range(self.n - 1)\n            ]\n", "            self.swap(ens_idx, trj_idx)\n            needstomove = list(np.diag(self.state[:-1, :-1]) == 0)\n"),
     B("c08-restart-file-written-at-the-first-submission", REPEX, "            if self.screen > 0:\n                self.print_start()\n", "            if self.screen > 0:\n                self.print_start()\n            self.write_toml()\n", "R-8.16", control=True, why="seeded C08_o"),
     B("c08-restart-file-written-when-a-job-is-picked", REPEX, "    def prep_md_items(self, md_items):\n        \"\"\"Fill md_items with picked path and ens.\"\"\"\n", "    def prep_md_items(self, md_items):\n        \"\"\"Fill md_items with picked path and ens.\"\"\"\n        self.write_toml()\n", "R-8.16", why="sibling of C08_o"),
     K("c08-keep-commit-at-the-top-of-the-cycle", REPEX, "        self.cstep += 1\n\n        if self.printing() and self.cstep <= self.tsteps:", "        self.write_toml()\n        self.cstep += 1\n\n        if self.printing() and self.cstep <= self.tsteps:", why="loop() runs after every worker was started"),
